@@ -163,5 +163,28 @@ for n in XE.__all__:
                 rec2['parser_stored'] = str(holder['e'].attributes.get(a.name))
         single.append(rec2)
     rec['single'] = single
+    # the parser route with numeric spellings: what is accepted must be what the schema's lexical space of the attribute's type allows
+    ptexts = []
+    try:
+        decl = [a for a in c.TYPE.get_xsd_attributes() if a.name] if c.TYPE.get_xsd_tree().is_complex_type else []
+    except Exception:
+        decl = []
+    for a in [x for x in decl if x.name != 'name'][:8]:          # name= is captured by a Python property (recorded finding C04-name)
+        try:
+            tname = a.xsd_tree.get_attributes().get('type')
+        except Exception:
+            tname = None
+        if not tname:
+            continue
+        for text in ('2', '2.0', '2.', '02', '+2', '1.50', '-1'):
+            node = ET.Element(c.XSD_TREE.name, {a.name: text})
+            if v0 is not None:
+                node.text = str(v0)
+            holder = {}
+            def p2():
+                holder['e'] = _et_xml_to_music_xml(node)
+            o = outcome(p2)
+            ptexts.append([a.name, tname, text, o, str(holder['e'].attributes.get(a.name)) if 'e' in holder else None])
+    rec['parser_texts'] = ptexts
     out.append(rec)
 json.dump(out, sys.stdout)
